@@ -3,10 +3,17 @@
 E  trees in the ESP-IDF idiom: IDF_TARGET (string, default from the environment), promptless IDF_TARGET_CHIPA/B, promptless
    capabilities SOC_CAP (bool) / SOC_NUM (int) derived from the target, FORCED (prompted, force-selected by IDF_TARGET_CHIPA),
    DERIV (promptless, derived from a user option), UG (prompt gated by a user option), GATED (prompt gated by the target),
-   SOC_UNDEF (referenced, never defined), user options U1 U2 (bool) N (int) S (string); an expression E ranging over every
+   SOC_UNDEF (referenced, never defined), user options U1 U2 (bool) N (int) S (string); MIRROR symbols, whose default VALUE
+   (not condition) is a symbol: MIR_B `default U1`, MIR_NOT `default !U1`, MIR_E `default U1 && U2`, MIR_TC `default U1 if
+   IDF_TARGET_CHIPA`, MIR_PG (prompt `if IDF_TARGET_CHIPB`, `default U1`), MIR_2 `default MIR_B`, MIR_I int `default N`,
+   MIR_S string `default S` (all follow the user; at the defaults U1=n N=4 S="d" a dependency on them is false) and the
+   controls MIR_T `default IDF_TARGET_CHIPB`, MIR_NI int `default SOC_NUM` (really fixed by the target); an expression E ranging over every
    expression of the bounded alphabet (see RULE) placed at every documented site, in three program groups:
      deps        P_DEP `depends on E` (+ dependent child), `if E` block, prompt condition `if E`, option defined twice
-     containers  menu `depends on E`, menu `visible if E`, choice `depends on E`, choice member `depends on E`, menuconfig
+     containers  menu `depends on E`, menu `visible if E`, choice `depends on E`, choice member `depends on E` / inside `if E` /
+                 with prompt condition `if E`, menuconfig; the members are referenced OUTSIDE conditions, where the generator
+                 prints a symbol as a link without folding it: they `select` / `set` documented options (forward and
+                 "forced by" rows), are the default VALUE of another option and the VALUE of another option's `set`
      conds       `range .. if E`, `default .. if E`, `select T if E`, `set T=v if E` on options that have their own `depends on`
    plus fixed programs (excluded menu names, nested menus, multi-level breadcrumbs); targets chipa and chipb; a rename file
    (deprecated section).
@@ -35,12 +42,16 @@ from ..kgen import And, Cfg, Choice, If, L, Menu, Not, Or, Program, Rel, S
 ID = "C20"
 LEVEL = "exploration"
 RULE = (
-    "expressions E: bool atoms A0 = {U1,U2,FORCED,IDF_TARGET_CHIPA,IDF_TARGET_CHIPB,SOC_CAP,SOC_UNDEF,DERIV,UG,GATED}; relations R = "
+    "expressions E: bool atoms A0 = {U1,U2,FORCED,IDF_TARGET_CHIPA,IDF_TARGET_CHIPB,SOC_CAP,SOC_UNDEF,DERIV,UG,GATED}; mirror atoms M = "
+    "{MIR_B,MIR_NOT,MIR_E,MIR_TC,MIR_PG,MIR_2,MIR_T}, mirror relations RM = 7 numeric pairs over MIR_I/MIR_NI x six relations + 9 "
+    "bool/string pairs over MIR_S/MIR_* x {=,!=}; mirror family (both tiers): m, !m, all of RM, !r for 6 key mirror relations, "
+    "{x op c, c op x} for x in M + key mirror relations x partners {U2,IDF_TARGET_CHIPA,!IDF_TARGET_CHIPB,SOC_UNDEF,FORCED}, ordered "
+    "pairs of 5 mirror atoms, 12 negated/mixed forms; in thorough M joins A0 and RM joins R in every construction below. relations R = "
     "numeric operand pairs {(N,3),(N,1.5),(N,SOC_NUM),(SOC_NUM,3),(3,N),(N,N)[,(SOC_NUM,N),(N,0x3),(SOC_NUM,1.5),"
     "(S,\"v1\") in thorough]} x all six relations + 15 bool/string pairs x {=,!=}; depth<=1: a, !a, a&&b, a||b (all "
     "ordered pairs of distinct atoms), all of R; depth 2 quick: !r for all r, {r op c, c op r} for 14 key relations x 4 partners, "
     "!(a op b), (a op b) op c over small atom sets; depth 2 thorough: x op y for all ordered pairs with one side in A0+!A0+R and "
-    "the other in A0+!A0+key relations, !(x) for every depth-1 x. Each E x 3 program groups x targets {chipa,chipb} x all "
+    "the other in A0+!A0+key relations+{MIR_B, MIR_I<3} (A0 without M on this side), !(x) for every depth-1 x. Each E x 3 program groups x targets {chipa,chipb} x all "
     "assignments of the user-settable options that E (transitively) mentions (bool {n,y}, N {1,2,3,4}, S {v1,chipa,chipb,zz}; <=64). "
     "evaluations = doc generations + assignment evaluations. distinct_nontrivial = distinct (program, target, set of documented "
     "anchors, recorded condition triples) in which at least one condition was changed by the simplifier or an option was omitted."
@@ -51,6 +62,11 @@ ASSUMPTIONS = [
     "'option' = symbol or choice with a prompt; menus are not options ((c) still covers their anchors)",
     "(b) is checked modulo the stripped direct dependencies, as the generator prints them once under 'Symbol can be set when'",
     "ordering relations (<,<=,>,>=) are generated only for numeric operand pairs (and one string pair in thorough)",
+    "mirror symbols take a plain symbol, its negation or one conjunction as default value, with no or a target-constant condition; "
+    "the user symbol's default (U1=n, U2=y, N=4, S=\"d\") is the 'current value' during generation, so both a dependency that is false "
+    "now (omission, (a)) and one that is true now (condition shown as always true, (b)) are explored",
+    "choice members are referenced as select/set sources, default values and set values only; `select <member>` is not generated "
+    "(the library warns about selecting a choice member)",
     "an undefined symbol (omitted SOC_* capability) occurs only in bool context, where both the library and the generator read it "
     "as n; as an operand of a relation the documents do not say what it means (the library compares its NAME as a string, the "
     "generator substitutes n), so that construct is not generated",
@@ -62,13 +78,24 @@ TARGETS = ("chipa", "chipb")
 # the idiom: base symbols
 # --------------------------------------------------------------------------------------------------
 
-ORDER = ["IDF_TARGET", "IDF_TARGET_CHIPA", "IDF_TARGET_CHIPB", "SOC_CAP", "SOC_NUM", "FORCED", "U1", "U2", "N", "S", "DERIV", "UG", "GATED"]
+ORDER = ["IDF_TARGET", "IDF_TARGET_CHIPA", "IDF_TARGET_CHIPB", "SOC_CAP", "SOC_NUM", "FORCED", "U1", "U2", "N", "S", "DERIV", "UG", "GATED",
+         "MIR_B", "MIR_NOT", "MIR_E", "MIR_TC", "MIR_PG", "MIR_2", "MIR_T", "MIR_I", "MIR_NI", "MIR_S"]
 NEEDS = {
     "SOC_CAP": ["IDF_TARGET_CHIPA"],
     "SOC_NUM": ["IDF_TARGET_CHIPA", "IDF_TARGET_CHIPB"],
     "DERIV": ["U1"],
     "UG": ["U1"],
     "GATED": ["IDF_TARGET_CHIPB"],
+    "MIR_B": ["U1"],
+    "MIR_NOT": ["U1"],
+    "MIR_E": ["U1", "U2"],
+    "MIR_TC": ["U1", "IDF_TARGET_CHIPA"],
+    "MIR_PG": ["U1", "IDF_TARGET_CHIPB"],
+    "MIR_2": ["MIR_B"],
+    "MIR_T": ["IDF_TARGET_CHIPB"],
+    "MIR_I": ["N"],
+    "MIR_NI": ["SOC_NUM"],
+    "MIR_S": ["S"],
 }
 KIND = {
     "IDF_TARGET": "target_string",
@@ -85,6 +112,17 @@ KIND = {
     "UG": "user_gated_bool",
     "GATED": "target_gated_bool",
     "SOC_UNDEF": "undefined",
+    # mirrors: the user-settable symbol is the VALUE of the default, not its condition
+    "MIR_B": "mirror_bool",
+    "MIR_NOT": "mirror_bool_negated",
+    "MIR_E": "mirror_bool_expr",
+    "MIR_TC": "mirror_bool_target_cond",
+    "MIR_PG": "mirror_bool_prompt_target_gated",
+    "MIR_2": "mirror_of_mirror",
+    "MIR_T": "mirror_of_target_bool",
+    "MIR_I": "mirror_int",
+    "MIR_NI": "mirror_of_const_int",
+    "MIR_S": "mirror_string",
 }
 DOMAIN = {
     "U1": ["n", "y"],
@@ -92,6 +130,7 @@ DOMAIN = {
     "FORCED": ["n", "y"],
     "UG": ["n", "y"],
     "GATED": ["n", "y"],
+    "MIR_PG": ["n", "y"],
     "N": ["1", "2", "3", "4"],
     "S": ["v1", "chipa", "chipb", "zz"],
 }
@@ -127,6 +166,27 @@ def base_cfg(name: str, present: List[str]) -> Cfg:
         return Cfg(name, "bool", prompt="gated by a user option", depends=[S("U1")])
     if name == "GATED":
         return Cfg(name, "bool", prompt="gated by the target", depends=[S("IDF_TARGET_CHIPB")], defaults=[(L("y"), None)])
+    # mirror symbols: promptless (or prompt switched off by the target) whose default VALUE is a symbol
+    if name == "MIR_B":
+        return Cfg(name, "bool", defaults=[(S("U1"), None)])
+    if name == "MIR_NOT":
+        return Cfg(name, "bool", defaults=[(Not(S("U1")), None)])
+    if name == "MIR_E":
+        return Cfg(name, "bool", defaults=[(And(S("U1"), S("U2")), None)])
+    if name == "MIR_TC":
+        return Cfg(name, "bool", defaults=[(S("U1"), S("IDF_TARGET_CHIPA"))])
+    if name == "MIR_PG":
+        return Cfg(name, "bool", prompt="mirror, settable on chipb only", prompt_cond=S("IDF_TARGET_CHIPB"), defaults=[(S("U1"), None)])
+    if name == "MIR_2":
+        return Cfg(name, "bool", defaults=[(S("MIR_B"), None)])
+    if name == "MIR_T":
+        return Cfg(name, "bool", defaults=[(S("IDF_TARGET_CHIPB"), None)])
+    if name == "MIR_I":
+        return Cfg(name, "int", defaults=[(S("N"), None)])
+    if name == "MIR_NI":
+        return Cfg(name, "int", defaults=[(S("SOC_NUM"), None)])
+    if name == "MIR_S":
+        return Cfg(name, "string", defaults=[(S("S"), None)])
     raise KeyError(name)
 
 
@@ -189,6 +249,64 @@ KEY_RELS = [
 ]
 
 
+# mirrors (promptless / target-gated symbols whose default VALUE is a symbol): bool atoms and relation operand pairs
+MIRROR_ATOMS = [S(n) for n in ("MIR_B", "MIR_NOT", "MIR_E", "MIR_TC", "MIR_PG", "MIR_2", "MIR_T")]
+MIRROR_NUM_PAIRS = [
+    (S("MIR_I"), L("3")),
+    (L("3"), S("MIR_I")),
+    (S("MIR_I"), S("SOC_NUM")),
+    (S("MIR_I"), S("N")),
+    (S("MIR_NI"), L("3")),
+    (S("N"), S("MIR_NI")),
+    (S("MIR_I"), S("MIR_NI")),
+]
+MIRROR_EQ_PAIRS = [
+    (S("MIR_S"), L('"v1"')),
+    (S("MIR_S"), S("IDF_TARGET")),
+    (S("MIR_S"), S("S")),
+    (S("MIR_B"), L("y")),
+    (S("MIR_B"), S("U1")),
+    (S("MIR_NOT"), L("n")),
+    (S("MIR_2"), S("U2")),
+    (S("MIR_T"), L("y")),
+    (S("MIR_PG"), S("MIR_B")),
+]
+MIRROR_KEY_RELS = [
+    Rel("<", S("MIR_I"), L("3")),
+    Rel(">=", S("MIR_I"), S("SOC_NUM")),
+    Rel("!=", S("MIR_I"), L("3")),
+    Rel("<", S("MIR_NI"), L("3")),
+    Rel("=", S("MIR_S"), L('"v1"')),
+    Rel("!=", S("MIR_S"), S("IDF_TARGET")),
+]
+
+
+def mirror_relations() -> List[tuple]:
+    out = []
+    for a, b in MIRROR_NUM_PAIRS:
+        for op in kgen.RELS:
+            out.append(Rel(op, a, b))
+    for a, b in MIRROR_EQ_PAIRS:
+        for op in ("=", "!="):
+            out.append(Rel(op, a, b))
+    return out
+
+
+def mirror_expressions() -> List[tuple]:
+    """The quick-tier family over the mirror symbols (in thorough they are ordinary members of A0 / R)."""
+    R = mirror_relations()
+    out: List[tuple] = list(MIRROR_ATOMS) + [Not(a) for a in MIRROR_ATOMS] + R + [Not(r) for r in MIRROR_KEY_RELS]
+    partners = [S("U2"), S("IDF_TARGET_CHIPA"), Not(S("IDF_TARGET_CHIPB")), S("SOC_UNDEF"), S("FORCED")]
+    for m in MIRROR_ATOMS + MIRROR_KEY_RELS:
+        for c in partners:
+            out += [And(m, c), And(c, m), Or(m, c), Or(c, m)]
+    for a, b in itertools.permutations(MIRROR_ATOMS[:4] + [S("MIR_2")], 2):
+        out += [And(a, b), Or(a, b)]
+    for m in MIRROR_ATOMS[:3]:
+        out += [Not(And(m, S("U2"))), Not(Or(m, S("IDF_TARGET_CHIPA"))), And(Not(m), S("U2")), Or(Not(m), S("IDF_TARGET_CHIPB"))]
+    return out
+
+
 def relations(tier: str) -> List[tuple]:
     out = []
     seen = set()
@@ -198,6 +316,8 @@ def relations(tier: str) -> List[tuple]:
     for a, b in EQ_PAIRS:
         for op in ("=", "!="):
             out.append(Rel(op, a, b))
+    if tier == "thorough":
+        out += mirror_relations()
     res = []
     for e in out:
         if e not in seen:
@@ -208,9 +328,10 @@ def relations(tier: str) -> List[tuple]:
 
 def expressions(tier: str) -> List[tuple]:
     R = relations(tier)
-    neg = [Not(a) for a in A0]
-    d1: List[tuple] = list(A0) + neg + R
-    for a, b in itertools.permutations(A0, 2):
+    atoms = list(A0) + (MIRROR_ATOMS if tier == "thorough" else [])
+    neg = [Not(a) for a in atoms]
+    d1: List[tuple] = list(atoms) + neg + R
+    for a, b in itertools.permutations(atoms, 2):
         d1.append(And(a, b))
         d1.append(Or(a, b))
     out = list(d1)
@@ -229,8 +350,8 @@ def expressions(tier: str) -> List[tuple]:
                 continue
             out += [And(And(a, b), c), Or(And(a, b), c), And(Or(a, b), c), Or(Or(a, b), c)]
     else:
-        wide = list(A0) + neg + R
-        narrow = list(A0) + neg + KEY_RELS
+        wide = list(atoms) + neg + R
+        narrow = list(A0) + [Not(a) for a in A0] + KEY_RELS + [S("MIR_B"), MIRROR_KEY_RELS[0]]
         pairs = []
         seenp = set()
         for x in wide:
@@ -247,6 +368,7 @@ def expressions(tier: str) -> List[tuple]:
             if a == b:
                 continue
             out += [And(And(a, b), c), Or(And(a, b), c), And(Or(a, b), c), Or(Or(a, b), c)]
+    out += mirror_expressions()
     # precedence / parenthesisation probes over three USER-SETTABLE operands (right- and left-nested, mixed operators)
     rel = KEY_RELS[0]
     for a, b, c in list(itertools.permutations((S("U1"), S("U2"), S("UG")), 3)) + [(S("U1"), S("U2"), rel), (rel, S("U1"), S("U2")), (S("U1"), rel, S("U2"))]:
@@ -293,25 +415,40 @@ def build_program(group: str, E: Optional[tuple]) -> Tuple[Program, List[str], L
                 ],
             )
         )
+        # choice members also ACT on documented options (select / set) and are used as VALUES (default value, set value)
+        # by other options: places where a symbol is printed as a link without being folded
+        kids.append(Cfg("T_SEL", "bool", prompt="selected by members"))
+        kids.append(Cfg("T_SET", "int", prompt="set by members", defaults=[(L("0"), None)]))
+        kids.append(Cfg("T_SB", "bool", prompt="set to a member"))
         kids.append(
             Choice(
                 name="P_CH",
                 prompt="probe: choice with depends on",
                 depends=[E],
                 defaults=[("P_CH_A", None)],
-                children=[Cfg("P_CH_A", "bool", prompt="a", help="Help of a member."), Cfg("P_CH_B", "bool", prompt="b")],
+                children=[
+                    Cfg("P_CH_A", "bool", prompt="a", help="Help of a member.", selects=[("T_SEL", None)]),
+                    Cfg("P_CH_B", "bool", prompt="b", sets=[("T_SET", L("5"), None)]),
+                ],
             )
         )
         kids.append(
             Choice(
                 name="P_CM",
                 prompt="probe: choice with a dependent member",
-                children=[Cfg("P_CM_A", "bool", prompt="a", depends=[E]), Cfg("P_CM_B", "bool", prompt="b")],
+                children=[
+                    Cfg("P_CM_A", "bool", prompt="a", depends=[E], selects=[("T_SEL", None)], sets=[("T_SET", L("7"), None)], help="Help of the dependent member."),
+                    Cfg("P_CM_B", "bool", prompt="b", sets=[("T_SB", S("P_CM_A"), None)]),
+                    If(cond=E, children=[Cfg("P_CM_C", "bool", prompt="c (inside if)", selects=[("T_SEL", None)])]),
+                    Cfg("P_CM_D", "bool", prompt="d (prompt condition)", prompt_cond=E, sets=[("T_SET", L("9"), None)]),
+                ],
             )
         )
         kids.append(Cfg("P_MC", "bool", prompt="probe: menuconfig", depends=[E], defaults=[(L("y"), None)], menuconfig=True))
         kids.append(Cfg("P_MC_C", "bool", prompt="probe: child of menuconfig", depends=[S("P_MC")]))
         kids.append(Cfg("P_REF", "bool", prompt="probe: refers to members", defaults=[(L("y"), S("P_CH_A")), (L("n"), S("P_CM_A"))]))
+        kids.append(Cfg("P_DV", "bool", prompt="probe: default value is a member", defaults=[(S("P_CM_A"), S("T_SB")), (S("P_CM_C"), S("T_SEL")), (S("P_CH_B"), None)]))
+        kids.append(Cfg("P_SV", "bool", prompt="probe: sets an option to a member", sets=[("T_SB", S("P_CM_C"), None), ("T_SB", S("P_CH_A"), S("T_SEL"))]))
         renames = ["CONFIG_OLD_P_MDEP CONFIG_P_MDEP", "CONFIG_OLD_P_CH_A CONFIG_P_CH_A", "CONFIG_OLD_P_MC CONFIG_P_MC", "CONFIG_OLD_P_CH CONFIG_P_CH"]
     elif group == "conds":
         extra = ["U2"]
